@@ -32,23 +32,33 @@ class CHECK(core.Check):
             "mode f = decimal numbers run as binary64 (Float model). Bounded-exhaustive: one and two taskers over the period "
             "grid x order x stop index. non-trivial = at least 3 passes and some tasker ran at least twice; distinct by case content")
     TRUSTED = ["correspondence: real Skedder.run/addReadyTask, House.orderTaskables, Store.changeStamp, base Tasker.makeRunner and "
-               "Want*.action run in-process; scripted tasker wrapper and recorder of harness/props/sked_doubles.py are test doubles",
-               "Lean `Float` (hardware binary64) = CPython float for + and <; time is exact (Rat) in all theorems",
+               "Want*.action run in-process; the scripted tasker wrapper, the recorder and the loop/finally phase probe "
+               "(caller frame line inside the `finally:` body, located with ast) of harness/props/sked_doubles.py are test doubles",
+               "binary64: Lean `Float` (hardware) and the kernel-evaluable model F64 (Model/SkedF64.lean) are both run on every "
+               "decimal case and must equal CPython's float bit for bit; all timing theorems are over exact time (Rat)",
+               "the model describes skedding.py as repaired by fixes/D02a-skedder-status-after-stopiteration.patch",
                "real-time mode (time.sleep, MonoTimer) not modelled"]
-    PARTIAL = ["C02_kth_run_float_partial: on binary64 numbers the k-th-run law is proved only outside the region "
-               "`floatDrift` (binary64 run = exact run); inside it the code deviates (known finding D2)",
-               "real-time mode of Skedder.run is outside the model"]
-    TECHNIQUE = ("Lean 4 theorems (deque rotation = fold over the initial ready list; invariants over passes; due-time "
-                 "recurrence over Rat) + differential correspondence with the real scheduler")
-    LEVEL_TEXT = ("Proof on a model of Skedder.run that is generic over the time type and over the tasker environment: "
-                  "C02_pass_sublist / C02_runs_once / C02_declared_order (every pass sends to a sublist of the declared "
-                  "front+mid+back order, each id at most once), C02_aborted_never_runs, C02_runs_iff_due / C02_kth_run / "
-                  "C02_every_tick_when_p_le_P (exact time), C02_period_change_next_reschedule are full; "
-                  "C02_kth_run_float_partial is partial (binary64 rounding: known finding D2 with a kernel-checked "
-                  "counterexample).")
-    LEVEL_NOTE = ("Trusted: Lean kernel; axioms propext, Classical.choice, Quot.sound; the hand transcription of skedding.py "
-                  "validated by the correspondence runs; hardware binary64 arithmetic of Lean Float = CPython float; the scripted "
-                  "test taskers; real-time mode not covered.")
+    PARTIAL = ["C02_kth_run_float_partial: for binary64 time the due-pass law is proved only outside the decidable region "
+               "`floatDrift` (binary64 run = exact run, event by event); inside it the code deviates: known finding D2, "
+               "C02_counterexample_decimal / C02_counterexample_decimal_passes (kernel-evaluated on F64)",
+               "real-time mode of Skedder.run (sleeping on MonoTimer) is outside the model",
+               "the clamp max(0.0, period) of Want*.action is in the model and compared, but the oracle takes the period read "
+               "after each run as given (the property does not state the clamp)"]
+    TECHNIQUE = ("Lean 4 theorems (one pass = chain of per-entry steps over the deque; invariants over passes and over the "
+                 "whole run incl. the abort sweep; due-time recurrence over Rat; kernel evaluation of a binary64 model for the "
+                 "counterexample) + differential correspondence with the real scheduler")
+    LEVEL_TEXT = ("Proof on a model of Skedder.run that is generic over the time type and over the tasker environment. Full: "
+                  "C02_start_declared_order, C02_pass_sublist, C02_declared_order, C02_runs_once (every pass of every run sends to a "
+                  "sublist of the declared fronts+mids+backs order, each id at most once), C02_aborted_never_runs (no send after "
+                  "status ABORTED / StopIteration / exception, abort sweep included), and over exact time C02_runs_iff_due, "
+                  "C02_kth_run (first pass after the previous run whose time reaches retime0 + k*p), C02_every_tick_when_p_le_P, "
+                  "C02_period_change_next_reschedule, C02_from_start. Partial: C02_kth_run_float_partial (binary64 time only outside "
+                  "the region floatDrift); C02_counterexample_decimal(_passes) prove the deviation of known finding D2 on the "
+                  "kernel-evaluable binary64 model (tick 0.1, period 0.2: passes 0,2,4,7,9,11).")
+    LEVEL_NOTE = ("Trusted: Lean kernel; axioms propext, Classical.choice, Quot.sound; the hand transcription of skedding.py / "
+                  "tasking.py / wanting.py validated by the correspondence runs (exact model on dyadic grids, hardware Float and the "
+                  "F64 model on decimal grids); the scripted test taskers and the phase probe; real-time mode not covered; "
+                  "assumes fix patch D02a applied (status after StopIteration).")
 
     # ------------------------------------------------------------------ generation
     MULT_X = ["0", "1/2", "1", "3/2", "2", "3", "5/4", "1/4", "7/2", "-1", "1", "0"]
@@ -134,13 +144,17 @@ class CHECK(core.Check):
 
     def requests(self, case):
         if case["mode"] == "f":       # the region predicate of D2 is evaluated in the same driver batch
-            return [sd.run_request(case), sd.drift_request(case)]
+            return [sd.run_request(case), sd.drift_request(case), sd.soft_request(case)]
         return [sd.run_request(case)]
 
     def model_post(self, case, replies):
+        lines = sd.parse_reply(replies[0])
         if len(replies) > 1:
             self._drift[core.case_key(case)] = replies[1]
-        return sd.parse_reply(replies[0])
+            # hardware Float and the kernel-evaluable binary64 model (F64, numbers rounded by roundRat) must agree
+            if sd.parse_reply(replies[2]) != lines:
+                lines = lines + ["F64-model-differs-from-Float: " + replies[2][:200]]
+        return lines
 
     # ------------------------------------------------------------------ oracle
     def _exact_period(self, case, text):
